@@ -700,8 +700,74 @@ fn truncate_check(dir: &str) -> i32 {
   }
 }
 
+// ------------------------------------------------------------------------------------------------ construction check (C16, file / anonymous backends)
+fn create_one<A: Allocator>(dir: &str, tag: &str, file: bool, unify: bool, reserved: u32, bad: &mut u32) {
+  let p = format!("{dir}/create_{tag}_{reserved}_{unify}.arena");
+  let _ = std::fs::remove_file(&p);
+  let o = Options::new().with_capacity(4096).with_reserved(reserved).with_unify(unify).with_magic_version(9);
+  let want = if file || unify { o.data_offset_unify::<A>() } else { o.data_offset::<A>() };
+  let a: A = if file {
+    unsafe { o.with_create_new(true).with_read(true).with_write(true).map_mut::<A, _>(&p).expect("create") }
+  } else {
+    o.map_anon::<A>().expect("anon")
+  };
+  let label = format!("[{tag} file={file} unify={unify} reserved={reserved}]");
+  if a.data_offset() != want || a.allocated() != want {
+    println!("NATIVE L1 violated: {label} data_offset() = {}, allocated() = {}, Options says {want}", a.data_offset(), a.allocated());
+    *bad += 1;
+  }
+  if a.reserved_slice().len() != reserved as usize || a.reserved_slice().iter().any(|b| *b != 0) {
+    println!("NATIVE L1 violated: {label} reserved_slice() has {} bytes or is not zero", a.reserved_slice().len());
+    *bad += 1;
+  }
+  if a.capacity() != 4096 || a.memory()[want..].iter().any(|b| *b != 0) {
+    println!("NATIVE L1 violated: {label} capacity {} / data area not zero", a.capacity());
+    *bad += 1;
+  }
+  if a.magic_version() != 9 || a.read_only() || (file && !a.unify()) || (!file && a.unify() != unify) {
+    println!("NATIVE L1 violated: {label} magic_version / read_only / unify flags");
+    *bad += 1;
+  }
+  match a.alloc_bytes(8) {
+    Ok(mut b) => {
+      unsafe { b.detach() };
+      if b.offset() != want {
+        println!("NATIVE L1 violated: {label} first allocation at {} instead of {want}", b.offset());
+        *bad += 1;
+      }
+    }
+    Err(e) => {
+      println!("NATIVE L1 violated: {label} first allocation refused: {e}");
+      *bad += 1;
+    }
+  }
+  drop(a);
+  let _ = std::fs::remove_file(&p);
+}
+
+fn create_check(dir: &str) -> i32 {
+  let mut bad = 0u32;
+  for reserved in [0u32, 5, 13, 64] {
+    for unify in [false, true] {
+      create_one::<Arena>(dir, "sync", true, unify, reserved, &mut bad);
+      create_one::<rarena_allocator::unsync::Arena>(dir, "unsync", true, unify, reserved, &mut bad);
+      create_one::<Arena>(dir, "sync", false, unify, reserved, &mut bad);
+      create_one::<rarena_allocator::unsync::Arena>(dir, "unsync", false, unify, reserved, &mut bad);
+    }
+  }
+  if bad == 0 {
+    println!("NATIVE L1 holds");
+    0
+  } else {
+    1
+  }
+}
+
 fn main() {
   let args: Vec<String> = std::env::args().collect();
+  if args[1] == "--create-check" {
+    std::process::exit(create_check(&args[2]));
+  }
   if args[1] == "--truncate-check" {
     std::process::exit(truncate_check(&args[2]));
   }
